@@ -188,6 +188,8 @@ func init() {
 			for _, env := range [][]string{{"NO_COLOR=1"}, {"TERM=dumb"}, {"NO_COLOR=1", "TERM=dumb", "CLICOLOR=0"}, {"TERM=xterm-256color", "COLORTERM=truecolor", "FORCE_COLOR=1"}} {
 				js = append(js, chunk("rand", "prod", pick(tier, 500, 4000), pick(tier, 500, 2000), Job{Env: env, Timeout: 30 * time.Minute})...)
 			}
+			// ... nor by the application's process-wide no-color switch (is.SetNoColorMode, a CLI's --no-color)
+			js = append(js, chunk("rand", "prod", pick(tier, 500, 4000), pick(tier, 500, 2000), Job{Args: []string{"-x", "nocolormode=1"}, Timeout: 30 * time.Minute})...)
 			return js
 		},
 	})
